@@ -12,11 +12,21 @@ Definition lstart (l : label) : list task := match l with LEv _ (EStart t) => [t
 Definition starts_of (tr : list label) : list task := flat_map lstart tr.
 Definition interp {A} (body : task -> list A) (tr : list label) : list A := flat_map body (starts_of tr).
 
-Definition wstarted (p : wpc) : list task := match p with WRunYield t | WRunEnd t => [t] | _ => [] end.
+(* tasks in the hands of a thread whose body has begun (the suspended callers of an inline nested assign
+   have all begun) / has not begun yet *)
+Definition wstarted (p : wpc) : list task :=
+  match p with
+  | WRunYield t st | WRunEnd t st | WAsgLock t _ st | WAsgSignal t st | WAsgUnlock t st | WAsgRet t st => t :: st
+  | WRunStart _ st => st
+  | _ => [] end.
 Definition wunstarted (p : wpc) : list task :=
-  match p with WRunUnlockQC t | WRunUnlockWC t | WRunStart t => [t] | _ => [] end.
-Definition cstarted (p : cpc) : list task := match p with CInlYield t | CInlEnd t => [t] | _ => [] end.
-Definition cunstarted (p : cpc) : list task := match p with CInlStart t | CAsgLock t => [t] | _ => [] end.
+  match p with WRunUnlockQC t | WRunUnlockWC t | WRunStart t _ => [t] | WAsgLock _ t' _ => [t'] | _ => [] end.
+Definition cstarted (p : cpc) : list task :=
+  match p with
+  | CInlYield t st | CInlEnd t st => t :: st
+  | CInlStart _ st | CAsgLock _ st | CAsgSignal st | CAsgUnlock st | CAsgRet st => st
+  | _ => [] end.
+Definition cunstarted (p : cpc) : list task := match p with CInlStart t _ | CAsgLock t _ => [t] | _ => [] end.
 Definition ws (x : worker) := wstarted (w_pc x).
 Definition started (s : state) : list task := cstarted (pc0 s) ++ flat_map ws (workers s) ++ executed s.
 
@@ -48,6 +58,8 @@ Proof.
   all: try solve [ apply Permutation_app_head; symmetry; apply Permutation_middle ].
   all: try solve [ symmetry; apply Permutation_middle ].
   all: try solve [ ws_fact; rewrite F; cbn; symmetry; apply Permutation_middle ].
+  all: try solve [ pcount ].
+  all: try solve [ ws_fact; pcount ].
 Qed.
 
 Lemma started_run tr : forall s s', run s tr = Some s' -> Permutation (started s') (starts_of tr ++ started s).
